@@ -1185,12 +1185,10 @@ impl<'ast, 'res> Resolver<'ast, 'res> {
                             Some(ValueType::String)
                         }
                         (ValueType::Number, ValueType::Number) => Some(ValueType::Number),
+                        // `add` is overloaded (numbers add, strings concatenate), so with a
+                        // dynamically typed operand the result is only known at run time.
                         (ValueType::Dynamic, ..) | (.., ValueType::Dynamic) => {
-                            if l == ValueType::Number || r == ValueType::Number {
-                                Some(ValueType::Number)
-                            } else {
-                                Some(ValueType::String)
-                            }
+                            Some(ValueType::Dynamic)
                         }
                         _ => None,
                     },
